@@ -541,6 +541,80 @@ fn long_histories_td(f: TT, n: usize, order: &[usize], rep: &mut Report) {
     }
 }
 
+/// Very long histories of cheap queries: a query on h; k queries on an unrelated diagram g of the same builder;
+/// a query on f, which shares h's nodes, under another weight table - for k in windows around 2^8 / j and 2^16 / j
+/// (j = 1..4: a query may touch a per-thread or per-builder counter once or several times). Counters, epochs and
+/// generation stamps narrower than the number of calls wrap around only here; every answer is compared with the
+/// answer on a fresh builder on a fresh thread, and the scratch slots of f and h must read as empty before the
+/// last query.
+fn wraparound_histories(ctx: &Ctx) -> Report {
+    let mut ks: Vec<usize> = Vec::new();
+    for base in [1usize << 8, 1 << 16] {
+        for j in [1usize, 2, 3, 4, 64, 128] {
+            for d in 0..6usize {
+                let k = (base / j + 1).saturating_sub(d);
+                if !ks.contains(&k) {
+                    ks.push(k);
+                }
+            }
+        }
+    }
+    if ctx.tier == Tier::Quick {
+        // quick: every window, both ends and the centre
+        ks.retain(|&k| k < 300 || [0usize, 1, 2, 3].contains(&(((1usize << 16) + 1).wrapping_sub(k) % 7)) || (1usize << 16) / k >= 2);
+    }
+    // (first query on h, filler query on g, last query on f)
+    let kinds: Vec<(usize, usize, usize)> = vec![(0, 5, 13), (0, 0, 13), (5, 5, 5), (0, 3, 13), (5, 3, 0), (1, 5, 2)];
+    let items: Vec<(usize, (usize, usize, usize))> = ks.iter().flat_map(|&k| kinds.iter().map(move |&q| (k, q))).collect();
+    let order: Vec<usize> = (0..6).collect();
+    fn diagrams<'a>(b: &'a AllBuilder<'a>) -> (BddPtr<'a>, BddPtr<'a>, BddPtr<'a>) {
+        let x = |v: u64, p: bool| b.var(VarLabel::new(v), p);
+        let h = b.and(x(2, true), x(3, false));
+        let f = b.or(b.and(x(0, true), x(1, true)), h);
+        let g = b.or(x(4, true), x(5, true));
+        (h, f, g)
+    }
+    let qs: Vec<Q> = (0..13).map(Q::Fixed).chain([Q::Wmc2]).collect();
+    let mut r = par_run(ctx, &items, |_, (k, (qa, qb, qc))| {
+        let mut rep = Report::default();
+        rep.exhaustive = true;
+        let fx = fixtures(5);
+        let fx6 = Fix { n: 6, real: WmcParams::new((0..6).map(|v| (VarLabel::new(v as u64), (RealSemiring(0.25 + 0.125 * (v % 3) as f64), RealSemiring(0.75 - 0.125 * (v % 3) as f64)))).collect::<HashMap<_, _>>()), real2: WmcParams::new((0..6).map(|v| (VarLabel::new(v as u64), (RealSemiring(0.5 + 0.125 * (v % 2) as f64), RealSemiring(0.5 - 0.125 * (v % 2) as f64)))).collect::<HashMap<_, _>>()), ff1: WmcParams::new((0..6).map(|v| (VarLabel::new(v as u64), (FiniteField::new(3 + v as u128), FiniteField::new(P1 - 2 - v as u128)))).collect::<HashMap<_, _>>()), ff2: WmcParams::new((0..6).map(|v| (VarLabel::new(v as u64), (FiniteField::new(5 + v as u128), FiniteField::new(P2 - 4 - v as u128)))).collect::<HashMap<_, _>>()), eu: fx.eu.clone() };
+        let reference = on_fresh_thread(|| {
+            let b = small_builder(&order, 0);
+            let (_, f, _) = diagrams(&b);
+            bdd_query(&b, f, &qs[*qc], &fx6)
+        });
+        let b = small_builder(&order, 0);
+        let (h, f, g) = diagrams(&b);
+        rep.traces += 1;
+        rep.states += 1;
+        let case = json!({"kind": "wraparound", "k": k, "queries": [qa, qb, qc]});
+        let _ = bdd_query(&b, h, &qs[*qa], &fx6);
+        let first_g = bdd_query(&b, g, &qs[*qb], &fx6);
+        for i in 1..*k {
+            let a = bdd_query(&b, g, &qs[*qb], &fx6);
+            if a != first_g {
+                rep.violation("purity:answer-depends-on-history", format!("query kind {} on x4 | x5 answers {:?} at repetition {}, {:?} the first time", qb, a, i, first_g), case.clone());
+                return rep;
+            }
+        }
+        rep.transitions += *k as u64 + 2;
+        if !all_scratch_clear(&[f, h, g]) {
+            rep.violation("purity:scratch-left", format!("after a query of kind {} on x2 & !x3 and {} queries of kind {} on x4 | x5, a scratch slot of (x0 & x1) | (x2 & !x3) or of its sub-diagram reads as occupied", qa, k, qb), case.clone());
+            return rep;
+        }
+        let ans = bdd_query(&b, f, &qs[*qc], &fx6);
+        if ans != reference {
+            rep.violation("purity:answer-depends-on-history", format!("query kind {} on (x0 & x1) | (x2 & !x3) after a query of kind {} on its sub-diagram x2 & !x3 and {} queries of kind {} on x4 | x5 answers {:?}; on a fresh builder {:?}", qc, qa, k, qb, ans, reference), case.clone());
+        }
+        rep
+    });
+    r.bound("very_long_histories", json!({"fillers_between_the_two_queries": ks, "query_kinds": "(first, filler, last) in {wmc<Real>, wmc<FF32>, wmc<FF64>, evaluate, count_nodes, wmc<Real> with the second table}", "diagrams": "h = x2 & !x3, f = (x0 & x1) | h, g = x4 | x5 in one 6-variable builder"}));
+    r.add_extra("very_long_history_queries", r.transitions);
+    r
+}
+
 /// rule-defined family of function pairs: skipped levels at the top / middle / bottom,
 /// complemented roots, shared sub-diagrams, parity and threshold functions
 fn family(n: usize) -> Vec<(TT, TT)> {
@@ -730,6 +804,9 @@ pub fn run(ctx: &Ctx) -> Report {
         r
     });
     rep.merge(r);
+    if !disabled("wraparound") {
+        rep.merge(wraparound_histories(ctx));
+    }
     rep.evaluations = rep.transitions;
     rep.distinct_nontrivial = rep.states;
     rep.max_depth = depth as u64;
@@ -752,6 +829,7 @@ pub fn replay(ctx: &Ctx, case: &Value) -> Report {
     match case["kind"].as_str() {
         Some("bdd_queries") => explore_bdd_sel(f, g, n, &arr(&case["order"]), depth, case["pool_kind"].as_u64().unwrap_or(0) as u8, &mut rep, case["ops_only"].as_bool().unwrap_or(false)),
         Some("sdd_queries") => explore_sdd(f, g, n, &VT::parse(case["vtree"].as_str().unwrap_or("0")).unwrap_or(VT::Leaf(0)), depth, &mut rep),
+        Some("wraparound") => rep.merge(wraparound_histories(ctx)),
         Some("topdown_long_history") => long_histories_td(f, n, &arr(&case["order"]), &mut rep),
         Some("topdown_queries") => explore_td(f, g, n, &arr(&case["order"]), depth, case["pool_kind"].as_u64().unwrap_or(0) as u8, &mut rep),
         _ => {}
